@@ -91,6 +91,8 @@ class Canon:
     def opt(self, site) -> bool:
         return site == 59
 
+    last_ref_text = None
+
 
 class Rand:
     def __init__(self, rng):
@@ -356,7 +358,14 @@ def r_cmd(ch, c):
         return ch.kw(0, "rename") + b" " + r_mailbox(ch, 4, c[1]) + b" " + r_mailbox(ch, 5, c[2])
     if t == "list":
         _, lsub, sel, ref, pat, pats, ret, st = c
-        out = ch.kw(0, "lsub" if lsub else "list") + b" " + r_sel_opts(ch, sel) + r_mailbox(ch, 4, ref) + b" "
+        # a reference may be spelled with a trailing hierarchy delimiter (os.path.normpath drops it again);
+        # not a choice of Spec/Grammar.v: only the random chooser uses it (site 8)
+        if ref not in (b"", b"/", b"inbox") and not ref.endswith(b"/") and ch.opt(8):
+            ref_text = r_astring(ch.form(4, ref), ref + b"/")
+        else:
+            ref_text = r_mailbox(ch, 4, ref)
+        ch.last_ref_text = ref_text
+        out = ch.kw(0, "lsub" if lsub else "list") + b" " + r_sel_opts(ch, sel) + ref_text + b" "
         if pats:
             out += r_paren(lambda p: r_pattern(ch, 7, p), pats)
         else:
